@@ -46,6 +46,20 @@ CHECKS = {
              "finding (MPC NaN on constant vectors, pinned by a baseline test).",
         technique="TLC model checking of Indicators.tla (exact rational MAC, scale algebra) + replay into gen.MAC/MPC/MPD/MCF/MSF",
     ),
+    "C13": dict(
+        text="Spectra.tla (focus est): TLC enumerates (channels, references, record, nxseg, every overlap with integer "
+             "nxseg*pov, estimator, fs, impulse pair) and checks SegmentsInsideRecord, SegmentsCoverStep, NoMoreSegmentFits, "
+             "GridReachesNyquist, OnlyThePairedEntry; predictions: exact rational grid, shape, segment table, which entry "
+             "is non-zero for a pair of unit impulses, gain exponent, conjugation sign. SD_est is replayed on every case "
+             "(grid / shape / pairing / segmentation by impulses) and per configuration on seeded data: g^2 scaling, "
+             "bilinearity, Hermitian PSD, equality with an independent Welch implementation driven by the specification's "
+             "segment table (lines >= 2, 1e-9), delayed copies (property's own tolerances), sinusoids with Gaussian-integer "
+             "amplitudes (1e-9). FDD / EFDD / pLSCF results carry SD_est(data, data) with the run parameters.",
+        ref="DESIGN.md §4.7, §5 C13, §6",
+        note="Trusted: TLC, numpy FFT for the Welch reference. Not checked: 'integrates over frequency to the mean square' "
+             "(statistical approximation, no exact abstract counterpart).",
+        technique="TLC model checking of Spectra.tla + replay into SD_est (impulse probing, Welch reference on the spec's segments)",
+    ),
     "C14": dict(
         text="Setup.tla models the setup life cycle (decimate/detrend/filter/rollback/add) with a symbolic data term "
              "and exact rational metadata; TLC checks MetaTruthful, RollbackRestores, BindingFrozen, BoundToCurrent on "
@@ -96,6 +110,19 @@ CHECKS = {
         note="Trusted: TLC, exact Fractions / Gaussian integers of harness/tables.py. The end-to-end clause (shapes from SSI "
              "runs) is covered through Ident.tla in the C01/C03 machinery when present.",
         technique="TLC model checking of PoserMerge.tla + replay of every layout through merge_mode_shapes / merge_results",
+    ),
+    "C04": dict(
+        text="Spectra.tla (focus preger, + Layout.tla): TLC enumerates every arrangement of 1..3 shared reference channels "
+             "and the roving channels in each of 2..4 setups' channel lists, (nxseg, overlap, estimator) triples and gain "
+             "patterns; checks MergedRowsAreAllChannels and predicts which global channel every merged row / column is and "
+             "which setup a roving row belongs to. Every case: setups cut from one recording -> SD_PreGER must equal SD_est "
+             "of the channels in global order against the reference channels on the same grid (1e-7 on well-conditioned "
+             "lines); with per-setup gains the reference block must be the mean of the per-setup reference blocks and every "
+             "roving block that setup's transmissibility applied to the mean. FDD_MS / EFDD_MS / pLSCF_MS results likewise.",
+        ref="DESIGN.md §4.7, §5 C04",
+        note="Trusted: TLC; clause (i) compares two outputs of the library (the specification supplies correspondence and "
+             "parameters); numpy.linalg.solve for transmissibilities. Lines with cond(reference block) > 1e8 not judged.",
+        technique="TLC model checking of Spectra.tla/Layout.tla + replay of every partition through SD_PreGER vs SD_est",
     ),
     "C06": dict(
         text="Fdd.tla: TLC enumerates singular-value tables (exact ratio comparison by cross-multiplication), selected "
